@@ -1133,3 +1133,40 @@ Proof.
     inversion Hy; subst. rewrite plus_minus_exact in Hp. inversion Hp; subst. split; assumption.
   - destruct H3 as [g [Hg Ht]]. exists g. split; [exact Hg|]. eapply footer_shows_row_sums; eauto.
 Qed.
+
+(* ================================================================ H. the default view consists of cent texts *)
+Definition is_text (a : amount) : bool := match a with AText _ => true | AFull _ => false end.
+Definition cell_amounts (c : cell) : list amount :=
+  match c with
+  | CDollar a => [a]
+  | CPm p => [pm_amt p]
+  | CWithFx l f _ => [l; f]
+  | CGain p n => pm_amt p :: match n with Some n' => [pm_amt (sn_amt n')] | None => [] end
+  | _ => []
+  end.
+
+Lemma round_amount_text a : is_text (round_amount a) = true.
+Proof. destruct a; reflexivity. Qed.
+
+Lemma round_cell_text c : forallb is_text (cell_amounts (round_cell c)) = true.
+Proof.
+  destruct c; cbn [round_cell cell_amounts forallb round_pm pm_amt]; rewrite ?round_amount_text; try reflexivity.
+  destruct note as [n|]; cbn [option_map round_note sn_amt round_pm pm_amt forallb];
+    rewrite ?round_amount_text; reflexivity.
+Qed.
+
+(* every dollar figure of the default view (rows and footer) is a cent text
+   (dollar2_text of some figure): nothing of the default view depends on the
+   display scale of a dollar amount *)
+Theorem default_view_is_cent_text A cur ds g tb :
+  render_table A false cur ds g = Ok tb ->
+  Forall (Forall (fun c => forallb is_text (cell_amounts c) = true)) (tb_rows tb) /\
+  Forall (fun p => is_text (pm_amt p) = true) (tb_values tb).
+Proof.
+  rewrite render_table_display_only.
+  destruct (render_table A true cur ds g) as [t| |]; cbn [map_res]; try discriminate.
+  intros H. inversion H; subst; clear H. unfold round_table. cbn [tb_rows tb_values]. split.
+  - apply Forall_forall. intros row Hr. apply in_map_iff in Hr as [row' [<- _]].
+    apply Forall_forall. intros c Hc. apply in_map_iff in Hc as [c' [<- _]]. apply round_cell_text.
+  - apply Forall_forall. intros p Hp. apply in_map_iff in Hp as [p' [<- _]]. apply round_amount_text.
+Qed.
